@@ -122,13 +122,280 @@ def defs_request(defs):
     return 'units|' + ';'.join(out)
 
 
+
+# ------------------------------------------------------------------------------------------------ helpers on real objects
+
+def powers_of(cls):
+    return dict(cls._Dimension__powers)
+
+def is_q(SI, x):
+    return isinstance(x, SI.Quantity)
+
+def dim_of(SI, x):
+    """exponent dict of any value (plain values are dimensionless)"""
+    return powers_of(type(x)) if isinstance(x, SI.Quantity) else {}
+
+def unwrap(SI, x):
+    return x.unwrap() if isinstance(x, SI.Quantity) else x
+
+EXC = {'DimensionError': 'dimension', 'AssertionError': 'assertion', 'IndexError': 'index', 'TypeError': 'type',
+       'ValueError': 'value', 'ZeroDivisionError': 'zeroDiv', 'RecursionError': 'recursion', 'StopIteration': 'stop',
+       'AttributeError': 'attribute', 'KeyError': 'key', 'NotImplementedError': 'notimplemented'}
+
+def exc_name(e):
+    return EXC.get(type(e).__name__, type(e).__name__)
+
+class Timer:
+    pass
+
+# spec oracle for the dimension group: exact Fraction arithmetic on dicts
+def spec_mul(a, b): return canon({k: a.get(k, 0) + b.get(k, 0) for k in set(a) | set(b)})
+def spec_div(a, b): return canon({k: a.get(k, 0) - b.get(k, 0) for k in set(a) | set(b)})
+def spec_pow(a, q): return canon({k: v * F(q) for k, v in a.items()})
+
+BASES = ['L', 'T', 'M', 'I', 'θ', 'N', 'J', 'X', 'Yy', 'a1b', 'x_y', 'Ω', 'q', 'LL', 'l', 'T2x', 'ab']
+EXPS = [F(1), F(-1), F(2), F(-2), F(3), F(-3), F(4), F(1, 2), F(-1, 2), F(3, 2), F(1, 3), F(-2, 3), F(5, 7), F(10), F(12), F(-11), F(1, 10), F(11, 13), F(-21, 2), F(100, 3)]
+
+def gen_pows(rng, maxn=4, bases=BASES, exps=EXPS):
+    n = rng.choice([0, 1, 1, 2, 2, 3, maxn])
+    return {b: rng.choice(exps) for b in rng.sample(bases, n)}
+
+def gen_exponent(rng):
+    """(python object passed to Dimension.__pow__, exact value)"""
+    k = rng.randrange(7)
+    import numpy
+    if k == 0: v = rng.randint(-4, 4); return v, F(v)
+    if k == 1: v = rng.choice(EXPS + [F(0)]); return v, v
+    if k == 2: v = rng.choice([.5, -.5, 1.5, .25, 2., -3., 0., .125]); return v, F(v)
+    if k == 3: v = rng.randint(-3, 3); return numpy.int64(v), F(v)
+    if k == 4: v = rng.choice([.5, 2.5, -1.]); return numpy.float64(v), F(v)
+    if k == 5: v = rng.choice(['1/2', '3', '-2/3']); return v, F(v)
+    v = rng.randint(0, 3); return numpy.array(v), F(v)
+
+
+# ------------------------------------------------------------------------------------------------ stream: dimension algebra
+
+def stream_dim_algebra(c, SI, N):
+    rng = c.rng
+    D = SI.Dimension
+    cases = []
+    for _ in range(N):
+        a, b = gen_pows(rng), gen_pows(rng)
+        if rng.random() < .3: b = {k: rng.choice([v, -v, v]) for k, v in a.items()}   # cancellations
+        op = rng.choice(['mul', 'div', 'pow', 'pow'])
+        e = gen_exponent(rng) if op == 'pow' else None
+        cases.append((op, a, b, e))
+    req = []
+    for op, a, b, e in cases:
+        if op == 'pow': req.append('dimop|pow|%s|%s' % (pows_str(a), rat(e[1])))
+        else: req.append('dimop|%s|%s|%s' % (op, pows_str(a), pows_str(b)))
+    ans = c.model(req)
+    nbad = 0
+    for (op, a, b, e), r in zip(cases, ans):
+        A = D.from_powers(dict(a)); B = D.from_powers(dict(b))
+        spec = spec_mul(a, b) if op == 'mul' else spec_div(a, b) if op == 'div' else spec_pow(a, e[1])
+        replay = dict(stream='dim-algebra', op=op, a=pows_str(a), b=pows_str(b), exponent=repr(e[0]) if e else None, model=r)
+        try:
+            R = A * B if op == 'mul' else A / B if op == 'div' else A ** e[0]
+        except Exception as ex:
+            c.failing_input('dimension-algebra:%s-raises' % op, 'Dimension %s raises %s on valid operands' % (op, type(ex).__name__), dict(replay, exc=repr(ex)))
+            nbad += 1; continue
+        got = powers_of(R)
+        mp, mname = r.split('|')[:2]
+        c.case(('dim', op, pows_str(a), pows_str(b), rat(e[1]) if e else ''), nontrivial=bool(a))
+        c.count('dim:' + op); c.count('dim:result-' + ('dimensionless' if not spec else 'fractional' if any(v.denominator != 1 for v in spec.values()) else 'integral'))
+        c.sample(dict(replay, real=pows_str(got), name=R.__name__))
+        # specification oracle
+        if canon(got) != spec or any(not v for v in got.values()):
+            c.failing_input('dimension-algebra:' + op, 'Dimension.%s gives exponents that differ from exact arithmetic on the operands\' exponents' % op, dict(replay, real=pows_str(got), spec=pows_str(spec)))
+            nbad += 1; continue
+        if R is not D.from_powers(dict(spec)) or bool(R) != bool(spec):
+            c.failing_input('dimension-cache:identity', 'equal exponent vectors give different classes (cache keyed by name is not sound)', dict(replay, real=R.__name__))
+            nbad += 1; continue
+        try:
+            back = getattr(SI.Quantity, R.__name__); back2 = pickle.loads(pickle.dumps(R))
+        except Exception as ex:
+            back = back2 = ex
+        if back is not R or back2 is not R:
+            c.failing_input('dimension-name:roundtrip', 'class name does not resolve back to the class (pickle round trip)', dict(replay, name=R.__name__, back=repr(back)))
+            nbad += 1; continue
+        # correspondence with the model
+        if pows_parse(mp) != spec or R.__name__ != '[' + mname + ']':
+            nbad += 1
+            c.broken_no_input('corr:dimension-algebra', 'model and implementation disagree on exponents or class name', dict(replay, real=pows_str(got), name=R.__name__))
+    # group laws directly on the real classes
+    nlaw = 0
+    for _ in range(N // 4):
+        a, b, d = (D.from_powers(gen_pows(rng, exps=EXPS[:12])) for _ in range(3))
+        p, q = rng.choice(EXPS[:12]), rng.choice(EXPS[:12] + [F(0)])
+        laws = {'assoc': lambda: (a * b) * d is a * (b * d), 'comm': lambda: a * b is b * a, 'one': lambda: a * SI.Dimensionless is a and a / SI.Dimensionless is a,
+                'inv': lambda: a / a is SI.Dimensionless and a * a ** -1 is SI.Dimensionless, 'div': lambda: a / b is a * b ** -1,
+                'pow_add': lambda: a ** (p + q) is a ** p * a ** q, 'pow_mul': lambda: (a ** p) ** q is a ** (p * q), 'mul_pow': lambda: (a * b) ** q is a ** q * b ** q,
+                'pow_one': lambda: a ** 1 is a and a ** 0 is SI.Dimensionless}
+        for name, f in laws.items():
+            nlaw += 1
+            try: ok = f()
+            except Exception as ex: ok = False
+            if not ok:
+                nbad += 1
+                c.failing_input('dimension-group:' + name, 'group law %s fails on real Dimension classes' % name, dict(stream='dim-laws', law=name, a=a.__name__, b=b.__name__, d=d.__name__, p=str(p), q=str(q)))
+        c.case(('laws', a.__name__, b.__name__, d.__name__, str(p), str(q)), nontrivial=bool(a))
+    c.count('dim:laws-checked', nlaw)
+    c.obligation('corr:dimension-algebra', nbad == 0, 'correspondence', '%d operations, %d law instances' % (len(cases), nlaw))
+
+
+# ------------------------------------------------------------------------------------------------ stream: names, _split_factors, create, __getattr__
+
+def gen_factor_string(rng):
+    alpha = ['L', 'T', 'a', 'b', 'θ', '1', '2', '0', '3', '_', '*', '/', 'x', '12', '_2', 'M']
+    return ''.join(rng.choice(alpha) for _ in range(rng.randint(0, 8)))
+
+def stream_names(c, SI, N):
+    rng = c.rng
+    strings = ['', '*', '/', 'a', 'M*L/T2', 'M_2*L_2/T', 'M3_2*L3_2/T3', '/T', '/T/L', 'a//b', 'a*/b', 'a1_2_3', 'a__2', 'a2_', 'a_0', 'a0', '1', 'a1b2', 'x_y3', 'a_1_', 'a1__2', 'a_', 'a2_0']
+    strings += [gen_factor_string(rng) for _ in range(N)]
+    ans = c.model(['split|' + s for s in strings] + ['dimofname|' + s for s in strings] + ['create|' + s for s in strings])
+    n = len(strings); nbad = 0
+    for i, s in enumerate(strings):
+        # _split_factors
+        try: real = 'ok|' + ';'.join('%s:%s:%d' % (b, rat(p), n_) for b, p, n_ in SI._split_factors(s))
+        except Exception as e: real = 'err|' + exc_name(e)
+        c.case(('split', s), nontrivial=len(s) > 1); c.count('split:' + real.split('|')[0])
+        if real != ans[i]:
+            nbad += 1; c.broken_no_input('corr:_split_factors', 'model and implementation disagree', dict(stream='names', op='split', s=s, real=real, model=ans[i]))
+        # Quantity.__getattr__('[s]')
+        try: real = 'ok|' + pows_str(powers_of(getattr(SI.Quantity, '[' + s + ']')))
+        except Exception as e: real = 'err|' + exc_name(e)
+        c.count('getattr:' + real.split('|')[0])
+        if ans[n + i].startswith('ok|') and ans[n + i].endswith('|0'):
+            c.count('getattr:skipped-ambiguous-base')     # a base symbol that Dimension.create rejects: the name cache is history dependent
+        elif real != ans[n + i].rsplit('|', 1)[0] if ans[n + i].startswith('ok|') else real != ans[n + i]:
+            nbad += 1; c.broken_no_input('corr:Dimension.__getattr__', 'model and implementation disagree', dict(stream='names', op='getattr', s=s, real=real, model=ans[n + i]))
+        # Dimension.create
+        m = ans[2 * n + i].split('|')
+        if s in SI.Dimension._Dimension__cache:
+            continue
+        try:
+            cls = SI.Dimension.create(s)
+            real = 'ok' if powers_of(cls) == {s: F(1)} else 'ok-wrong-powers'
+        except Exception as e: real = exc_name(e)
+        c.count('create:' + real)
+        m = ['ok' if m[0] == 'ok' else 'value' if m[0] == 'invalid' else 'stop' if m[0] == 'stop' else m[1], m[-1]]
+        if real == 'ok' and m[-1] != '1':
+            # the specification (ValidBase) says the name of this base is ambiguous
+            c.failing_input('dimension-create:accepts-ambiguous', 'Dimension.create accepts a symbol whose class name cannot be parsed back', dict(stream='names', op='create', s=s, model=ans[2 * n + i]))
+            nbad += 1
+        elif real != m[0]:
+            nbad += 1; c.broken_no_input('corr:Dimension.create', 'model and implementation disagree', dict(stream='names', op='create', s=s, real=real, model=ans[2 * n + i]))
+    c.obligation('corr:names', nbad == 0, 'correspondence', '%d strings x (split, getattr, create)' % n)
+
+
+# ------------------------------------------------------------------------------------------------ stream: the handler functions, probed with a recording stub
+
+SMALL_DIMS = [{}, {'L': F(1)}, {'T': F(1)}, {'L': F(1), 'T': F(-1)}, {'M': F(1, 2)}, {'L': F(2)}, {'L': F(-1)}]
+
+class Plain:
+    'a positional argument that is not a Quantity'
+    def __init__(self, i): self.i = i
+
+def show_val(SI, i, a):
+    if isinstance(a, str): return a
+    if isinstance(a, SI.Quantity): return 'Q<%s>[%s]' % (pows_str(powers_of(type(a))), show_val(SI, i, a.unwrap()))
+    if isinstance(a, (list, tuple)): return '[' + ','.join(show_val(SI, j, x) for j, x in enumerate(a)) + ']'
+    if isinstance(a, Plain): return 'a%d' % a.i
+    return 'a%d' % i
+
+def make_arg(SI, rng, i, dims):
+    """(real argument, protocol encoding)"""
+    d = rng.choice(dims)
+    if rng.random() < .3 or not d:
+        if d or rng.random() < .7:
+            return Plain(i), 'p'
+        # a Quantity class can be dimensionless only through direct instantiation; wrap() never produces one
+        return Plain(i), 'p'
+    return SI.Dimension.from_powers(dict(d)).wrap('a%d' % i), 'q:' + pows_str(d)
+
+def stream_handlers(c, SI, entries, N):
+    rng = c.rng
+    handlers = {}
+    for e in entries:
+        handlers.setdefault((e['handler'], e['rank']), e['partial'].func)
+    keys = sorted(handlers)
+    kinds = c.model(['handler|%s|%d' % k for k in keys])
+    nbad = 0
+    cases = []
+    for key, kind in zip(keys, kinds):
+        if kind in ('none', 'bad-request'):
+            c.count('handlers:unknown-handler')
+            nbad += 1
+            c.broken_no_input('corr:handler-name', 'dispatch handler %r is unknown to the model' % (key,), dict(stream='handlers', handler=key))
+            continue
+        for _ in range(N):
+            dims = [rng.choice(SMALL_DIMS[1:]) for _ in range(2)] + [{}]      # few distinct dimensions so that agreement is frequent
+            if kind == 'stackLike':
+                seq = [make_arg(SI, rng, i, dims) for i in range(rng.choice([0, 1, 2, 2, 3]))]
+                rest = [(Plain(len(seq) + j), 'p') for j in range(rng.choice([0, 0, 1]))]
+                cases.append((key, kind, ('stack', seq, rest), 'stack|%s|%s' % (';'.join(a[1] for a in seq), ';'.join(a[1] for a in rest))))
+            elif kind == 'locate':
+                ops = []
+                for j, optional in enumerate([False, False, True, True]):
+                    if optional and rng.random() < .4: ops.append((None, 'none'))
+                    else: ops.append(make_arg(SI, rng, j, dims))
+                cases.append((key, kind, ('locate', ops), 'locate|' + '|'.join(o[1] for o in ops)))
+            else:
+                n = 2 if kind == 'sample' else rng.choice([3, 3, 4]) if kind == 'interp' else rng.choice([0, 1, 1, 2, 2, 2, 3, 3, 4])
+                args = [make_arg(SI, rng, i, dims) for i in range(n)]
+                expo = 'none'
+                if kind == 'powLike' and n >= 2:
+                    if rng.random() < .15: args[1] = (rng.choice([None, object()]), 'p')
+                    else:
+                        obj, val = gen_exponent(rng); args[1] = (obj, 'p'); expo = rat(val)
+                cases.append((key, kind, ('args', args), 'apply|%s|%s|%s' % (kind, ';'.join(a[1] for a in args), expo)))
+    ans = c.model([x[3] for x in cases])
+    for (key, kind, call, req), m in zip(cases, ans):
+        h = handlers[key]
+        def stub(*args, **kwargs):
+            s = 'f(' + ','.join(show_val(SI, i, a) for i, a in enumerate(args)) + ')'
+            return tuple(s + '#%d' % i for i in range(len(args))) if kind == 'evaluate' else s
+        try:
+            if call[0] == 'stack':
+                r = h(stub, [a[0] for a in call[1]], *[a[0] for a in call[2]])
+            elif call[0] == 'locate':
+                g, co, tol, md = [o[0] for o in call[1]]
+                r = h(lambda topo, geom, coords, **kw: 'located', 'topo', g, co, tol=tol, maxdist=md)
+                r = 'ok'
+            else:
+                r = h(stub, *[a[0] for a in call[1]])
+            real = 'ok|' + (';'.join(show_val(SI, 0, x) for x in r) if isinstance(r, tuple) else show_val(SI, 0, r)) if r != 'ok' else 'ok'
+        except Exception as e:
+            real = 'err|' + exc_name(e)
+        c.case(('handler', key, req), nontrivial='q:' in req)
+        c.count('handler:%s:%s' % (kind, real.split('|')[0] if real.startswith('ok') else real))
+        if real != m:
+            nbad += 1
+            c.broken_no_input('corr:handler:' + kind, 'handler %s and its model disagree' % key[0], dict(stream='handlers', handler=key, request=req, real=real, model=m))
+    c.sample(dict(stream='handlers', request=cases[-1][3], model=ans[-1]))
+    c.obligation('corr:handlers', nbad == 0, 'correspondence', '%d handler calls over %d handlers' % (len(cases), len(keys)))
+    return dict(zip(keys, kinds))
+
+
 def run(c):
     import warnings
     warnings.simplefilter('ignore')
     from nutils import SI
+    quick = c.tier == 'quick'
+    c.rule = 'TODO'
     entries = extract_dispatch(SI)
     defs, unsupported = extract_unit_defs(SI)
     c.write_generated('C20.lean', generated_text(entries, defs))
-    broken = c.build_and_audit()
+    import os
+    broken = [] if os.environ.get('NVH_DEV_SKIP_BUILD') else c.build_and_audit()
+    c.log('lean build + audit done')
+    stream_handlers(c, SI, entries, 40 if quick else 1500)
+    c.log('handlers done')
+    stream_dim_algebra(c, SI, 300 if quick else 6000)
+    c.log('dimension algebra done')
+    stream_names(c, SI, 300 if quick else 6000)
+    c.log('names done')
     for b in broken:
         c.broken_no_input('proof', b, dict(detail=b))
